@@ -125,6 +125,17 @@ Definition parse_number (ts : list Z) : res (option (Z * list Z)) :=
 Definition expect_number (ts : list Z) : res (Z * list Z) :=
   bind (parse_number ts) (fun o => match o with Some p => Ok p | None => Err end).
 
+(* canonical decimal rendering of a count (what str(n), struct and numpy write into a format):
+   most significant digit first, no leading zero except for 0 itself.  The fuel log2 n + 1 always
+   suffices (Proof/P_BufFmtCount.v, decimal_dval). *)
+Fixpoint dec_aux (fuel : nat) (n : Z) (acc : list Z) : list Z :=
+  match fuel with
+  | O => acc
+  | S f => let acc' := (48 + n mod 10) :: acc in
+           if n <? 10 then acc' else dec_aux f (n / 10) acc'
+  end.
+Definition decimal (n : Z) : list Z := dec_aux (S (Z.to_nat (Z.log2 n))) n [].
+
 (* ---- __Pyx_BufFmt_ProcessTypeChunk ---- *)
 Definition align_up (o al : Z) : Z := if o mod al =? 0 then o else o + (al - o mod al).
 
